@@ -4,6 +4,7 @@ import OxyModel.Props.C02
 #print axioms C02.C02_selected_is_member
 #print axioms C02.C02_removed_never_selected
 #print axioms C02.C02_added_within_rotation
+#print axioms C02.C02_failed_add_noop
 #print axioms C02.C02_remove_unknown_noop
 #print axioms C02.C02_empty_is_error
 #print axioms C02.C02_zero_is_error_partial
